@@ -41,6 +41,7 @@ const (
 	k11SufNoWake    = "no-wakeup-after-waiter-leaves" // C04's finding; listed for C11 as C11:no-wakeup-after-waiter-leaves
 	k11KeyTwice     = "C11:write-error-inside-push-fails-ack-twice"
 	k11KeyRollback  = "C11:value-rollback-by-inverse-operation-inexact"
+	k11KeyMajority  = "C11:majority-mode-counts-follower-acks-without-the-leaders-own-write"
 	k11KeyNeverAof  = "C11:never-persist-flag-leaves-hold-awaiting-ack-for-ever"
 )
 
@@ -204,6 +205,7 @@ func (k *k11Key) removeWaiter(r *k11Req) {
 }
 
 type k11Info struct {
+	parkPhases, parkedWithBuffered, parkHookBlocks int
 	ackReqs, ackSucceeded, ackFresh, ackFromQueue  int
 	ackFailedWrite, ackFailedData, ackTimedOut     int
 	ackWaitingLock, ackWaitingUnlock               int
@@ -269,6 +271,8 @@ type k11Env struct {
 	succ    map[string]int // (key,lockid) -> SUCCED replies to ack-required requests so far
 
 	held         bool
+	parked       bool   // the leader's idle flush is suppressed (see park)
+	majorityTwo  bool   // cluster in majority mode with >= 2 followers (finding k11KeyMajority applies)
 	faultActive  string // between release(fault) and repair
 	closedFile   *os.File
 	closedData   *os.File
@@ -315,7 +319,7 @@ func (e *k11Env) key(i int) *k11Key {
 }
 
 func k11NewEnv(c *k11Case, opts vInstOpts, inst *vInst) (*k11Env, error) {
-	vSetYieldExtra(func(int) {})
+	vSetYieldExtra(k11ParkHook.yield)
 	if inst == nil {
 		var err error
 		inst, err = vNewInst(opts)
@@ -461,6 +465,8 @@ func (e *k11Env) diskCheck(r *k11Req, what string) {
 			key = k11KeyReentrant
 		} else if r.Op.EF&0x0200 != 0 || e.neverAofKeys[r.Op.Key] {
 			key = k11KeyNeverAof
+		} else if e.majorityTwo {
+			key = k11KeyMajority
 		}
 		e.viol(key, "%s request #%d (%v) was answered SUCCED but the leader's append files hold %d LOCK record(s) of that key/LockId; %d acknowledged grant(s) need one each", what, r.Idx, r.Op, got, e.succ[id])
 	}
@@ -966,7 +972,7 @@ func (e *k11Env) send(op k11Op) {
 			e.viol("C11:no-ack-waiting", "request #%d (%v) targets a LockId whose hold awaits acknowledgement; expected LOCK_ACK_WAITING, got %s", r.Idx, op, got)
 		}
 		e.mu.Unlock()
-		if e.held || e.stuck != nil {
+		if e.held || e.parked || e.stuck != nil {
 			after := e.snapKey(aSnapshot(0, e.db), r.Key)
 			if a, b := k11SnapString(before), k11SnapString(after); a != b {
 				e.mu.Lock()
@@ -1000,10 +1006,13 @@ func (e *k11Env) tickOne() {
 func (e *k11Env) tick(n int) {
 	for s := 0; s < n; s++ {
 		e.tickOne()
-		if !e.held {
+		if !e.held && !e.parked {
 			if !e.quiesce() {
 				return
 			}
+		} else if e.parked && !k11QueuesIdle(e.inst.slock.aof) {
+			e.inconcl = "persistence queues did not drain while the flush was parked"
+			return
 		}
 		if s+1 < n {
 			e.reconcile(fmt.Sprintf("during tick (second %d)", s+1))
@@ -1283,8 +1292,142 @@ func (e *k11Env) reconcile(where string) {
 	}
 }
 
+// park suppresses the leader's flush-when-idle: Aof.waitLockAofChannel / syncFileAofChannel flush only when
+// channelActiveCount is 0, i.e. when no other shard's channel is busy. The harness adds one to that counter -
+// the state "another shard's writer is still busy" - so records pass Aof.PushLock (buffered in the append file,
+// registered for acknowledgement, pushed to the replication ring) but are not written. Hook point 20 (entry of
+// AofFile.Flush) cannot produce this state by itself: blocked in the key's own channel goroutine it also blocks
+// the follower acknowledgements queued behind it, blocked in another channel it holds Aof.aofGlock and keeps the
+// record out of PushLock. On a single node point 20 is still used as a stopper for the flushes that do not go
+// through the idle path (buffer full inside WriteLock): they block there until unpark.
+func (e *k11Env) park() {
+	if e.parked || e.held {
+		return
+	}
+	aof := e.inst.slock.aof
+	if e.ackGate == nil {
+		k11ParkHook.arm()
+	}
+	atomic.AddUint32(&aof.channelActiveCount, 1)
+	e.parked = true
+	e.info.parkPhases++
+	e.logf("parkflush: leader's idle flush suppressed")
+}
+
+func (e *k11Env) unpark() bool {
+	if !e.parked {
+		return true
+	}
+	aof := e.inst.slock.aof
+	e.info.parkHookBlocks += k11ParkHook.disarm()
+	atomic.AddUint32(&aof.channelActiveCount, 0xffffffff)
+	// what the last channel to go idle does (Aof.waitLockAofChannel)
+	aof.aofGlock.Lock()
+	if aof.aofFile != nil {
+		if aof.aofFile.windex > 0 {
+			e.mu.Lock()
+			e.info.parkedWithBuffered++
+			e.mu.Unlock()
+		}
+		_ = aof.aofFile.Flush()
+	}
+	if aof.channelFlushWaiter != nil {
+		close(aof.channelFlushWaiter)
+		aof.channelFlushWaiter = nil
+	}
+	aof.aofGlock.Unlock()
+	e.parked = false
+	e.mu.Lock()
+	e.logf("unparkflush")
+	e.mu.Unlock()
+	if e.ackGate != nil {
+		return true
+	}
+	return e.quiesce()
+}
+
+// k11ParkHook blocks flushes at hook point 20 while armed (single node only: with several instances in the
+// process the hook cannot tell whose flush it is).
+type k11ParkHookT struct {
+	mu      sync.Mutex
+	armed   bool
+	release chan struct{}
+	blocked int
+}
+
+var k11ParkHook k11ParkHookT
+
+func (h *k11ParkHookT) arm() {
+	h.mu.Lock()
+	h.armed, h.release, h.blocked = true, make(chan struct{}), 0
+	h.mu.Unlock()
+}
+
+func (h *k11ParkHookT) disarm() int {
+	h.mu.Lock()
+	defer h.mu.Unlock()
+	if !h.armed {
+		return 0
+	}
+	h.armed = false
+	close(h.release)
+	return h.blocked
+}
+
+func (h *k11ParkHookT) yield(point int) {
+	if point != verifPointAofFlushStart {
+		return
+	}
+	h.mu.Lock()
+	if !h.armed {
+		h.mu.Unlock()
+		return
+	}
+	h.blocked++
+	rel := h.release
+	h.mu.Unlock()
+	<-rel
+}
+
+// k11QueuesIdle: every persistence queue of the instance empty and its goroutine waiting, seen three times in a
+// row; does not touch Aof.aofGlock / WaitFlushAofChannel (usable while the flush is parked). false = watchdog.
+func k11QueuesIdle(aof *Aof) bool {
+	deadline := time.Now().Add(8 * time.Second)
+	stable := 0
+	for time.Now().Before(deadline) {
+		// a flush blocked at hook point 20 owns Aof.aofGlock: like a hold phase, nothing asynchronous can complete
+		k11ParkHook.mu.Lock()
+		blocked := k11ParkHook.armed && k11ParkHook.blocked > 0
+		k11ParkHook.mu.Unlock()
+		if blocked {
+			return true
+		}
+		busy := false
+		aof.glock.Lock()
+		chans := append([]*AofChannel{}, aof.channels...)
+		aof.glock.Unlock()
+		for _, ch := range chans {
+			ch.queueGlock.Lock()
+			if ch.queueCount != 0 || !ch.queuePulled {
+				busy = true
+			}
+			ch.queueGlock.Unlock()
+		}
+		if !busy {
+			stable++
+			if stable >= 3 {
+				return true
+			}
+		} else {
+			stable = 0
+		}
+		time.Sleep(50 * time.Microsecond)
+	}
+	return false
+}
+
 func (e *k11Env) hold() {
-	if e.held {
+	if e.parked || e.held {
 		return
 	}
 	e.inst.slock.aof.aofGlock.Lock()
@@ -1380,18 +1523,27 @@ func (e *k11Env) step(op k11Op) bool {
 		if !e.release(op.Fault) {
 			return false
 		}
+	case "parkflush":
+		e.park()
+	case "unparkflush":
+		if !e.unpark() {
+			return false
+		}
 	}
 	if e.inconcl != "" {
 		return false
 	}
-	if !e.held {
+	if !e.held && !e.parked {
 		if !e.quiesce() {
 			return false
 		}
+	} else if e.parked && !k11QueuesIdle(e.inst.slock.aof) {
+		e.inconcl = "persistence queues did not drain while the flush was parked"
+		return false
 	}
 	e.reconcile("after " + op.String())
-	// upper bound of the ack wait (hold phases only: nothing can acknowledge)
-	if e.held {
+	// upper bound of the ack wait (hold / park phases only: nothing can acknowledge)
+	if e.held || e.parked {
 		e.mu.Lock()
 		for _, r := range e.reqs {
 			if r.State == k11Pending && r.Terminal < 0 && e.now-r.Time >= int64(r.Op.T)+3 {
@@ -1427,6 +1579,11 @@ func k11RunSingleOpts(c *k11Case, replay bool) (out k11Out) {
 				e.held = false
 				e.inst.slock.aof.aofGlock.Unlock()
 			}
+			if e.parked {
+				e.parked = false
+				k11ParkHook.disarm()
+				atomic.AddUint32(&e.inst.slock.aof.channelActiveCount, 0xffffffff)
+			}
 			e.mu.TryLock()
 			e.mu.Unlock()
 			e.viol("C11:panic", "panic in the harness goroutine: %v\n%s", p, k11RepoFrames(string(debug.Stack())))
@@ -1444,6 +1601,9 @@ func k11RunSingleOpts(c *k11Case, replay bool) (out k11Out) {
 	if ok && e.held {
 		ok = e.step(k11Op{K: "release"})
 	}
+	if ok && e.parked {
+		ok = e.step(k11Op{K: "unparkflush"})
+	}
 	abandon := false
 	if ok {
 		if s := aScanFreed(e.db); s != "" {
@@ -1460,6 +1620,11 @@ func k11RunSingleOpts(c *k11Case, replay bool) (out k11Out) {
 	if e.held {
 		e.held = false
 		e.inst.slock.aof.aofGlock.Unlock()
+	}
+	if e.parked {
+		e.parked = false
+		k11ParkHook.disarm()
+		atomic.AddUint32(&e.inst.slock.aof.channelActiveCount, 0xffffffff)
 	}
 	e.mu.Lock()
 	out.viols, out.history, out.info, out.inconclusive = e.viols, e.history(), e.info, e.inconcl
